@@ -9,7 +9,11 @@ RULE = ("random epsilon-NFA/NFA/DFA specs (0-4 states, 1-3 plain symbols, any nu
         "with the hash seed); to_regex() must not raise, its parsed tree and to_regex().to_epsilon_nfa() must accept "
         "exactly the automaton's language (verified equivalence oracle), and accepts() must agree on all words of "
         "length <=3. Non-trivial: >=2 states, >=2 transitions, a start and a final state.")
-THEOREMS = []
+LEVEL = "translation_validation"
+THEOREMS = ["Pfl.Rx.thompson_lang",
+            "Pfl.ENFA.langDiff_none_iff",
+            "Pfl.ENFA.langDiff_some",
+            "Pfl.ENFA.member_iff"]
 
 
 def generate(rng, tier):
